@@ -217,7 +217,16 @@ func marshalDocSections(secs []DocumentSection) []byte {
 
 func unmarshalDocSections(data []byte, ds []DocumentSection) []DocumentSection {
 	sz, m := binary.Uvarint(data)
+	if m <= 0 {
+		// corrupt length prefix
+		return ds[:0]
+	}
 	data = data[m:]
+	if sz > uint64(len(data)) {
+		// every element takes at least one byte: never trust a corrupt count
+		// with an allocation
+		sz = uint64(len(data))
+	}
 
 	if cap(ds) < int(sz)/2 {
 		ds = make([]DocumentSection, 0, sz/2)
@@ -232,11 +241,19 @@ func unmarshalDocSections(data []byte, ds []DocumentSection) []DocumentSection {
 		var d DocumentSection
 
 		delta, m := binary.Uvarint(data)
+		if m <= 0 {
+			// truncated or overlong varint in a corrupt shard
+			break
+		}
 		last += uint32(delta)
 		data = data[m:]
 		d.Start = last
 
 		delta, m = binary.Uvarint(data)
+		if m <= 0 {
+			// truncated or overlong varint in a corrupt shard
+			break
+		}
 		last += uint32(delta)
 		data = data[m:]
 		d.End = last
@@ -279,7 +296,16 @@ func toSizedDeltas(offsets []uint32) []byte {
 
 func fromSizedDeltas(data []byte, ps []uint32) []uint32 {
 	sz, m := binary.Uvarint(data)
+	if m <= 0 {
+		// corrupt length prefix
+		return ps[:0]
+	}
 	data = data[m:]
+	if sz > uint64(len(data)) {
+		// every element takes at least one byte: never trust a corrupt count
+		// with an allocation
+		sz = uint64(len(data))
+	}
 
 	if cap(ps) < int(sz) {
 		ps = make([]uint32, 0, sz)
@@ -290,6 +316,10 @@ func fromSizedDeltas(data []byte, ps []uint32) []uint32 {
 	var last uint32
 	for len(data) > 0 {
 		delta, m := binary.Uvarint(data)
+		if m <= 0 {
+			// truncated or overlong varint in a corrupt shard
+			break
+		}
 		offset := last + uint32(delta)
 		last = offset
 		data = data[m:]
@@ -319,7 +349,16 @@ func toSizedDeltas16(offsets []uint16) []byte {
 
 func fromSizedDeltas16(data []byte, ps []uint16) []uint16 {
 	sz, m := binary.Uvarint(data)
+	if m <= 0 {
+		// corrupt length prefix
+		return ps[:0]
+	}
 	data = data[m:]
+	if sz > uint64(len(data)) {
+		// every element takes at least one byte: never trust a corrupt count
+		// with an allocation
+		sz = uint64(len(data))
+	}
 
 	if cap(ps) < int(sz) {
 		ps = make([]uint16, 0, sz)
@@ -330,6 +369,10 @@ func fromSizedDeltas16(data []byte, ps []uint16) []uint16 {
 	var last uint16
 	for len(data) > 0 {
 		delta, m := binary.Uvarint(data)
+		if m <= 0 {
+			// truncated or overlong varint in a corrupt shard
+			break
+		}
 		offset := last + uint16(delta)
 		last = offset
 		data = data[m:]
@@ -347,6 +390,10 @@ func fromDeltas(data []byte, buf []uint32) []uint32 {
 	var last uint32
 	for len(data) > 0 {
 		delta, m := binary.Uvarint(data)
+		if m <= 0 {
+			// truncated or overlong varint in a corrupt shard
+			break
+		}
 		offset := last + uint32(delta)
 		last = offset
 		data = data[m:]
